@@ -72,42 +72,42 @@ type Obligation struct {
 
 // FT is the translation of one function under verification.
 type FT struct {
-	e        *Engine
-	fn       *ssa.Function
-	con      *FnContract
-	decls    []string
-	declared map[string]bool
-	facts    []*T
-	obls     []*Obligation
-	strLits  map[string]string
-	strOrder []string
-	nfresh   int
-	abstractions map[string]int
-	trusted      map[string]bool
-	collect  bool // pass 1: only collect loop write sets
-	loopWrites map[*ssa.BasicBlock]map[string][]writeRec
-	usedFns  map[string]bool
-	entry    State
-	wantTags map[string]bool
-	counters map[string]int
-	retInfos []*retInfo
-	failed   string
-	allocRefs []*T
-	nonNil    map[string]bool
-	mapEnums  []*mapIter
-	usedSpec  map[string]bool
-	globalsUsed map[string]bool
+	e             *Engine
+	fn            *ssa.Function
+	con           *FnContract
+	decls         []string
+	declared      map[string]bool
+	facts         []*T
+	obls          []*Obligation
+	strLits       map[string]string
+	strOrder      []string
+	nfresh        int
+	abstractions  map[string]int
+	trusted       map[string]bool
+	collect       bool // pass 1: only collect loop write sets
+	loopWrites    map[*ssa.BasicBlock]map[string][]writeRec
+	usedFns       map[string]bool
+	entry         State
+	wantTags      map[string]bool
+	counters      map[string]int
+	retInfos      []*retInfo
+	failed        string
+	allocRefs     []*T
+	nonNil        map[string]bool
+	mapEnums      []*mapIter
+	usedSpec      map[string]bool
+	globalsUsed   map[string]bool
 	unconstrained map[string]bool
-	callSiteHits map[*Clause]int
-	paramCVs  map[string]*CV
+	callSiteHits  map[*Clause]int
+	paramCVs      map[string]*CV
 	entrySnapshot State
-	top       *Body
-	exitEnv   *CEnv
-	invHit    map[*Clause]bool
-	allTagsC  []string
-	namedLits map[string]string
-	refSources map[string]bool // region|selector path of references that contracts dereference
-	nq        int
+	top           *Body
+	exitEnv       *CEnv
+	invHit        map[*Clause]bool
+	allTagsC      []string
+	namedLits     map[string]string
+	refSources    map[string]bool // region|selector path of references that contracts dereference
+	nq            int
 }
 
 type writeRec struct {
@@ -197,6 +197,9 @@ func (ft *FT) entryRegion(name string) *T {
 	ft.declare(sym, sort)
 	t := L(sym)
 	ft.entry[name] = t
+	if name == "H.Bytes" {
+		ft.fact(Eq(Sel(t, L("nil")), L("bempty"))) // a nil []byte is empty
+	}
 	return t
 }
 
@@ -227,6 +230,9 @@ func (ft *FT) newRegionVersion(name string) *T {
 	ft.nfresh++
 	sym := fmt.Sprintf("%s@%d", symSafe(name), ft.nfresh)
 	ft.declare(sym, ft.regionSort(name))
+	if name == "H.Bytes" {
+		ft.fact(Eq(Sel(L(sym), L("nil")), L("bempty"))) // nothing is ever stored at nil: a nil []byte stays empty
+	}
 	return L(sym)
 }
 
@@ -246,43 +252,43 @@ func (ft *FT) havocRegion(st State, name string) {
 // inlined callee / closure).
 
 type Body struct {
-	ft      *FT
-	fn      *ssa.Function
-	prefix  string
-	vals    map[ssa.Value]*Val
-	reach   map[*ssa.BasicBlock]*T
-	out     map[*ssa.BasicBlock]State
-	edge    map[[2]int]*T
-	loops   map[*ssa.BasicBlock]*Loop // by header
-	inLoops map[*ssa.BasicBlock][]*Loop
-	outer   []*Loop // loops of the inlining context
-	order   []*ssa.BasicBlock
-	rets    []*retInfo
-	defers  []*ssa.Defer
-	freeVars []*Val
-	params   []*Val
-	iterIdx  map[*ssa.Range]string // map range -> iteration counter region
-	iterInfo map[*ssa.Range]*mapIter
-	depth    int
-	curBlock *ssa.BasicBlock
-	parent   *Body
-	curState State
+	ft        *FT
+	fn        *ssa.Function
+	prefix    string
+	vals      map[ssa.Value]*Val
+	reach     map[*ssa.BasicBlock]*T
+	out       map[*ssa.BasicBlock]State
+	edge      map[[2]int]*T
+	loops     map[*ssa.BasicBlock]*Loop // by header
+	inLoops   map[*ssa.BasicBlock][]*Loop
+	outer     []*Loop // loops of the inlining context
+	order     []*ssa.BasicBlock
+	rets      []*retInfo
+	defers    []*ssa.Defer
+	freeVars  []*Val
+	params    []*Val
+	iterIdx   map[*ssa.Range]string // map range -> iteration counter region
+	iterInfo  map[*ssa.Range]*mapIter
+	depth     int
+	curBlock  *ssa.BasicBlock
+	parent    *Body
+	curState  State
 	tupleRefs []*T // Ref-sorted components of tuple values
 }
 
 type mapIter struct {
-	keys *T // (Array Int K) enumeration of keys
-	n    *T
-	m    *T
+	keys         *T // (Array Int K) enumeration of keys
+	n            *T
+	m            *T
 	ksort, vsort string
-	kt, vt types.Type
+	kt, vt       types.Type
 }
 
 type Loop struct {
-	Header *ssa.BasicBlock
-	Blocks map[*ssa.BasicBlock]bool
-	Back   []*ssa.BasicBlock // sources of back edges
-	Body   *Body
+	Header  *ssa.BasicBlock
+	Blocks  map[*ssa.BasicBlock]bool
+	Back    []*ssa.BasicBlock // sources of back edges
+	Body    *Body
 	Ordinal int
 	RangeOf string // source text of ranged operand, if a range loop
 	IdxPhi  *ssa.Phi
